@@ -30,7 +30,7 @@ pub fn blocks(thorough: bool) -> Vec<Block> {
         b.push(Block::new(Universe::new("U_adv(A_gcm)", A_GCM, 2, 2, false), vec![Cfg::new(0), Cfg::new(X | E)], "{}, x+e"));
     } else {
         b.push(Block::new(Universe::new("U_adv(A_cons)", A_CONS, 1, 5, false), n1.clone(), "<=1 of {g,x,e,na,ne}"));
-        b.push(Block::new(Universe::new("U_adv(A_gcm)", A_GCM, 3, 2, false), n1.clone(), "<=1 of {g,x,e,na,ne}"));
+        b.push(Block::new(Universe::new("U_adv(A_gcm)", A_GCM, 3, 2, false), vec![Cfg::new(0), Cfg::new(X)], "{}, x"));
         b.push(Block::new(Universe::new("U_adv(A_gcm)", A_GCM, 2, 2, false), neutral.clone(), d32));
         b.push(Block::new(Universe::new("U_ab3{a,b}", &["a", "b"], 3, 0, false), neutral.clone(), d32));
         b.push(Block::new(Universe::new("U_abc2{a,b,c}", &["a", "b", "c"], 2, 0, true), neutral.clone(), d32));
@@ -40,8 +40,8 @@ pub fn blocks(thorough: bool) -> Vec<Block> {
         b.push(Block::new(Universe::new("U_ab4{a,b}", &["a", "b"], 4, 4, false), neutral.clone(), d32));
         b.push(Block::new(Universe::new("U_abc3{a,b,c}", &["a", "b", "c"], 3, 4, false), n1.clone(), "<=1 of {g,x,e,na,ne}"));
         b.push(Block::new(Universe::new("U_ab4{a,b}", &["a", "b"], 4, 5, false), vec![Cfg::new(0)], "{}"));
-        b.push(Block::new(Universe::new("U_adv(A_gc)", A_GC, 2, 3, true), n1.clone(), "<=1 of {g,x,e,na,ne}"));
-        b.push(Block::new(Universe::new("U_adv(A_meta)", A_META, 3, 2, true), n1.clone(), "<=1 of {g,x,e,na,ne}"));
+        b.push(Block::new(Universe::new("U_adv(A_gc)", A_GC, 2, 3, true), vec![Cfg::new(0)], "{}"));
+        b.push(Block::new(Universe::new("U_adv(A_meta)", A_META, 3, 1, false), neutral.clone(), d32));
     }
     b
 }
